@@ -9,11 +9,9 @@ import (
 )
 
 func main() {
-	for _, src := range []string{"漢字 \n漢字", "漢字\n漢字", "a \nb", "漢字 \n*漢字*", "漢 字 \n漢字"} {
-		for _, ex := range [][]goldmark.Extender{{extension.CJK}, {extension.CJK, extension.Linkify}, {extension.Linkify, extension.CJK}} {
-			var b bytes.Buffer
-			goldmark.New(goldmark.WithExtensions(ex...)).Convert([]byte(src), &b)
-			fmt.Printf("%q %d -> %q\n", src, len(ex), b.String())
-		}
+	for _, src := range []string{"[^a]: [^b]: x\n\nt[^a] u[^b]\n", "[^a]: o\n\n    [^b]: x\n\nt[^a] u[^b]\n", "t[^b]\n\n[^a]: > [^b]: x\n"} {
+		var b bytes.Buffer
+		goldmark.New(goldmark.WithExtensions(extension.Footnote)).Convert([]byte(src), &b)
+		fmt.Printf("%q\n -> %q\n", src, b.String())
 	}
 }
